@@ -144,6 +144,9 @@ Fixpoint transfer_all (k : transfer_kind) (ws : list cand) (p : profile) (d : sc
   match ws with
   | [] => mret []
   | w :: ws' =>
+      (* ballots_by_fpv[w]: a KeyError when w is not a candidate of the profile (only possible in
+         a get_profile replay that has diverged from the recorded states) *)
+      if negb (memb cand ceqb w (cands p)) then mfail EKey else
       do! a := do_transfer k w (lookup0 cand ceqb w d) (pile cand ceqb p w) t in
       do! rest := transfer_all k ws' p d t in
       mret (a ++ rest)
@@ -158,6 +161,7 @@ Definition simultaneous_elect (cfg : stv_cfg) (t : Q) (p : profile) (prev : esta
   let winners := flat cand el in
   do! moved := transfer_all (s_transfer cfg) winners p (escores prev) t in
   let others := set_diff cand ceqb (flat cand (remaining prev)) winners in
+  if negb (subsetb cand ceqb others (cands p)) then mfail EKey else
   let rest := concat (map (pile cand ceqb p) others) in
   let cleaned := remove_cand_bs cand ceqb winners true false (filter has_ranking (moved ++ rest)) in
   do! np := mlift (mk_profile cand ceqb cleaned (set_diff cand ceqb (cands p) winners)) in
@@ -170,8 +174,10 @@ Definition single_elect (cfg : stv_cfg) (t : Q) (p : profile) (prev : estate)
   do! _ := mlift (ballots_by_first_check cand ceqb p) in
   match el with
   | (w :: _) :: _ =>
+      if negb (memb cand ceqb w (cands p)) then mfail EKey else
       do! moved := do_transfer (s_transfer cfg) w (lookup0 cand ceqb w (escores prev))
                                (pile cand ceqb p w) t in
+      if negb (subsetb cand ceqb (flat cand rem) (cands p)) then mfail EKey else
       let rest := concat (map (pile cand ceqb p) (flat cand rem)) in
       let cleaned := remove_cand_bs cand ceqb [w] true false (filter has_ranking (moved ++ rest)) in
       do! np := mlift (mk_profile cand ceqb cleaned (set_diff cand ceqb (cands p) (flat cand el))) in
